@@ -15,7 +15,7 @@ inductive HeldReach (t : MTbl) (ext : Nat → Nat) : Nat → Prop
       t.node? k.natAbs = some nk → HeldReach t ext k.natAbs
 
 /-- with exact counts, a node with a positive count is held or has a parent -/
-theorem held_or_parent (m : MddMgr) (ext : Nat → Nat) (hx : RefExact m ext)
+theorem held_or_parent (m : MddMgr) (ext : Nat → Nat) (hx : MRefExact m ext)
     (x : Nat) (n : MNd) (hn : m.tbl.node? x = some n) (c : Nat) (hc : m.ref[x]? = some c) (hpos : 0 < c) :
     0 < ext x ∨ ∃ p np k, m.tbl.node? p = some np ∧ k ∈ np.kids ∧ k.natAbs = x := by
   have hcnt := hx.cnt x (Or.inr (by rw [hn]; rfl))
@@ -34,7 +34,7 @@ theorem held_or_parent (m : MddMgr) (ext : Nat → Nat) (hx : RefExact m ext)
       exact ⟨p, np, k, hnp, hk, habs⟩
 
 /-- if every node has a positive count, every node is reachable from a held node -/
-theorem all_reachable_of_live (m : MddMgr) (ext : Nat → Nat) (h : MInv m) (hx : RefExact m ext)
+theorem all_reachable_of_live (m : MddMgr) (ext : Nat → Nat) (h : MInv m) (hx : MRefExact m ext)
     (hlive : ∀ x n, m.tbl.node? x = some n → ∃ c, m.ref[x]? = some c ∧ 0 < c) :
     ∀ (l : Nat) (x : Nat) (n : MNd), m.tbl.node? x = some n → n.lvl ≤ l → HeldReach m.tbl ext x := by
   have hW := h.wf.toMWF
@@ -71,7 +71,7 @@ theorem HeldReach.mono {t t' : MTbl} {ext : Nat → Nat} (hs : MExt t' t) {x : N
   | step p n k nk _ hn hk hnk ih => exact HeldReach.step p n k nk ih (hs.nodes _ _ hn) hk (hs.nodes _ _ hnk)
 
 /-- full collection: a node of the manager remains iff it is reachable from a held node -/
-theorem gc_exactly_reachable (m : MddMgr) (ext : Nat → Nat) (h : MInv m) (hx : RefExact m ext)
+theorem gc_exactly_reachable (m : MddMgr) (ext : Nat → Nat) (h : MInv m) (hx : MRefExact m ext)
     (m' : MddMgr) (hr : mCollectGarbage none m = (.ok (), m')) (x : Nat) (n : MNd)
     (hn : m.tbl.node? x = some n) :
     m'.tbl.node? x = some n ↔ HeldReach m.tbl ext x := by
